@@ -14,6 +14,8 @@ use std::sync::{Arc, Mutex};
 use std::time::{Duration, Instant};
 
 pub const DEFAULT_SEED: u64 = 20260923;
+/// Per-worker cap on the sets used to count distinct cases (the counts are then lower bounds).
+const SET_CAP: usize = 1_500_000;
 
 fn verif_dir() -> PathBuf {
     std::env::var("VERIF_DIR").map(PathBuf::from).unwrap_or_else(|_| PathBuf::from("/verif"))
@@ -88,10 +90,14 @@ pub fn worker(args: &[String]) -> i32 {
         out.runs += 1;
         if rep.nontrivial {
             out.nontrivial += 1;
-            sigs.insert(rep.signature);
+            if sigs.len() < SET_CAP {
+                sigs.insert(rep.signature);
+            }
         }
         for h in &rep.case_hashes {
-            cases_seen.insert(*h);
+            if cases_seen.len() < SET_CAP {
+                cases_seen.insert(*h);
+            }
         }
         out.counters.merge(&rep.counters);
         out.sim_time_ns += rep.sim_time_ns;
@@ -416,6 +422,7 @@ pub fn check(args: &[String]) -> i32 {
             "distinct_interleavings_measure": "hash of the sequence of (thread, hook event, object) and scheduling decisions of the run (S1/S3); hash of the sequence of visited canonical states (S2/S4)",
             "distinct_interleavings": sigs.len(),
             "distinct_case_hashes": case_hashes.len(),
+            "distinct_counts_are_lower_bounds_when_capped_at_per_worker": SET_CAP,
             "fault_kinds_fired": faults,
             "probes": probes,
             "counters": other,
